@@ -229,7 +229,7 @@ def rowAt {V} (rows : List (Row V)) (k : Int × Int) : Option (Row V) := rows.fi
 non-missing cell per node.  ELEMENT_NODAL (`_element_nodal_positions`): the frame's rows looked up by the stored
 (element, node) pairs; `none` (KeyError / InvalidIndexError) when the frame's keys are not distinct, a stored pair has no
 row, or the frame has other rows than those.
-Scope: the model asks for distinct keys.  The code (tools/fixes/C20-6) also accepts the geometry's OWN repeated pairs - a
+Scope: the model asks for distinct keys.  The code (/repo commit a06569b) also accepts the geometry's OWN repeated pairs - a
 collapsed element such as 1 2 4 4 - by numbering the occurrences on both sides; frames with repeated (element, node) pairs are
 outside this model and its theorems (pyLife's importer multiplies such rows in its joins); that case is judged on the file by the
 harness (scenario `collapsed`).  The code collects the values and runs these checks before it creates the state / geometry
